@@ -65,6 +65,9 @@ def _models(name):
             yield "read-renamed", [("READ", [("InFileName", "input.csv"), ("InFieldName", "A")] + extra, "Alpha")], 0
             # a column whose header is a number (a year): as InFieldName it is a NUMBER token; it can only name the result through NewFieldName
             yield "read-numeric-field-renamed", [("READ", [("InFileName", "input.csv"), ("InFieldName", 2050)] + extra, "Y2050")], 0
+            # field / result names that are reserved words elsewhere (Python keywords): ordinary names in a command file
+            yield "read-keyword-field", [("READ", [("InFileName", "input.csv"), ("InFieldName", "class")] + extra, None)], 0
+            yield "read-keyword-renamed", [("READ", [("InFileName", "input.csv"), ("InFieldName", "A")] + extra, "yield")], 0
         return
     fz = SIG.input_fuzz(target)
     ar = D.arity(target)
@@ -213,7 +216,7 @@ def run(case):
     _, name, tier = case
     work = snapshot.scratch_dir("c16_")
     with open(os.path.join(work, "input.csv"), "w") as f:
-        f.write("A,B,2050\n10,5,1.5\n8,-9999,2\n7,3,-9999\n5,10,4\n2,8,0.25\n")
+        f.write("A,B,2050,class\n10,5,1.5,1\n8,-9999,2,2\n7,3,-9999,1\n5,10,4,3\n2,8,0.25,2\n")
     viols, outcomes = [], {}
     evals = judged = unspec = 0
     sample = None
